@@ -559,7 +559,11 @@ def rule_r4(ctx) -> RuleResult:
     ts = unparse(t)
     if ts in ("len(node.largs) > 1", "len(node.largs) >= 2", "node.largs[1:]"):
         rr.ok(RECURSE, "':' emitted iff " + ts, {"guard": ts})
-    elif isinstance(t, ast.Name) or "join" in ts or "fn_args" in ts:
+    elif isinstance(t, ast.Name) or "join" in ts or "fn_args" in ts or any(
+            isinstance(c, ast.Call) and isinstance(c.func, ast.Name) and c.func.id in ("any", "all", "filter", "sum", "max", "min")
+            and "largs" in unparse(c) for c in ast.walk(t)):
+        # any()/all()/... over the argument list looks at the *content* of the arguments (an empty argument is
+        # falsy), not at whether an argument list is present
         rr.bad(Finding("C19.R4", NE, RECURSE, "':' emitted iff " + ts,
                        "the colon depends on the rendered argument text instead of on the presence of an argument list: `{{PAGENAME:}}` "
                        "(one empty argument) is emitted as `{{PAGENAME}}` and re-parses with zero arguments", ifs[0].lineno))
